@@ -43,6 +43,11 @@ CHECKS = {
   text="Every fact base of up to 2 (quick) / 3 (thorough) facts over a witness domain with ground, partially bound, variant and non-variant clause-local variables is queried with findall/bagof/setof under every template, ^-set, goal shape and instance argument; the complete answer set (groups, their contents and order inside a group, the bindings of the free variables, goal variables left unbound) must equal the reference's.",
   note="Trusted: the reference all-solutions algorithm (ISO 8.10.1-3, 7.1.1.4), self-checked against the ISO examples. Group order is deliberately not compared.",
   design="DESIGN.md §3 C11"),
+ "C12": dict(
+  technique="stateless model checking of the real iterator code under a hand-written controlled scheduler: interpreter.go and solutions.go are rebuilt with their channel operations and go statement mechanically routed through a shim (go build -overlay), and every call history up to a length bound is executed under all interleavings of consumer and search goroutine(s) within a preemption bound (DFS over schedules, replayable choice lists); breadth-first over histories with a (model state, scheduler-visible state, last call) key",
+  text="Every history over {Next, Scan, Err, Close} up to length 6 (quick) / 7 (thorough) on 8 kinds of query, and every merge of two short histories on two Solutions of one interpreter, is run on the real code under every schedule with at most 2/3 preemptions. A blocking call is decided exactly (no enabled thread), as are goroutine leaks after Close/exhaustion and goals running after Close; results are compared with a sequential iterator model.",
+  note="Trusted: the syntactic rewriter and the shim's model of Go channels (DESIGN.md Appendix B); schedules are explored up to the stated preemption bound; data races are outside a cooperative scheduler's view (separate -race pass planned).",
+  design="DESIGN.md §3 C12"),
  "C16": dict(
   technique="bounded-exhaustive enumeration of call patterns on the real interpreter against relations computed by brute force: every instantiation pattern the modes admit x every combination of bound values (matching and non-matching), answers compared as multisets; infinite / variable-creating modes against the reference machine",
   text="For each of the 17 predicates the complete relation over a finite domain (multi-byte characters, lists, integers near the 64-bit limits) is enumerated by brute force and every admissible call pattern is compared with the matching subset of the relation, each tuple exactly once - which also yields the monotonicity clause of the property.",
